@@ -14,10 +14,15 @@ if st:
 subprocess.run(["git", "-C", "/repo", "apply", patch], check=True, stdout=subprocess.DEVNULL, stderr=subprocess.DEVNULL)
 res = {}
 try:
-    for p in props:
+    from concurrent.futures import ThreadPoolExecutor
+
+    def one(p):
         r = subprocess.run(["/venv/bin/python", "sa/check.py", p, "--tier", "quick"], cwd="/verif", capture_output=True, text=True)
         lines = [l for l in r.stdout.splitlines() if l.startswith(p + " ") or l.startswith("INCONCLUSIVE") or l.startswith("ANALYSIS-ERROR")]
-        res[p] = (r.returncode, lines)
+        return p, (r.returncode, lines)
+    with ThreadPoolExecutor(max_workers=12) as ex:
+        for p, v in ex.map(one, props):
+            res[p] = v
 finally:
     subprocess.run(["git", "-C", "/repo", "checkout", "-q", "--", "."], check=True, stdout=subprocess.DEVNULL, stderr=subprocess.DEVNULL)
 fired = [p for p, (rc, _) in res.items() if rc == 1]
